@@ -17,6 +17,15 @@ CHECKS = {
         note="Trusted: the tree-walking interpreter as the reference; canonicalisation in vk/canon.py; magnitude guard "
              "(cases above 50/22 bits rejected, not judged).",
         design="3/C05"),
+    "C11": dict(
+        category="exploration",
+        technique="property-based round-trip testing (Hypothesis recursive value strategies): write -> read -> compare, rewrite idempotence, Form(Format(x))",
+        text="Generated values of every data kind (extreme/negative numbers, exponent reals, hostile strings, nested lists, "
+             "dictionaries) are written with kg_write/.w, read back with .rs/.r and must be equal and rewrite identically; "
+             "x:$$x must match x for atoms. Exploration-level over a recursive generator; no absence proof.",
+        note="Trusted: vk/canon.py canonicalisation; values are those the interpreter itself builds from literals or "
+             "injected numpy objects; dictionaries nested inside lists/dictionaries are outside the stated domain.",
+        design="3/C11"),
 }
 
 NOT_APPLICABLE = {
